@@ -85,8 +85,8 @@ CLAIMED = {
    note="Trusted: coqc kernel + vm_compute (case files); scenario generator/renderer/mutators (harness/scenario.py, mutators.py); Model/Rules.v is tied to the Python by differential testing bounded by the generator, not by proof about the Python; T1 default-value table.",
    design="6/C14"),
  "C15": dict(
-   technique="Coq proof (invariance of the model under injective renumbering of ids and renaming of names/variables/attributes; spelling does not exist in the abstract syntax) + metamorphic run on the implementation tied to the model",
-   text="Theorems C15_renumber_ids, C15_rename_names, C15_rename_and_renumber (Properties/C15.v) for all schemas. Tie: each conformant scenario and each single-fault mutant is rendered all-by-id, all-by-alias, mixed per occurrence, and consistently renumbered/renamed; the verdicts must agree with each other and with the model.",
+   technique="Coq proof (invariance of the model under injective renumbering of ids and renaming of names/variables/attributes; spelling does not exist in the abstract syntax) + metamorphic run on the implementation tied to the model + kernel model of the reference STRING layer (Model/Resolve.v) with its own theorems and correspondence",
+   text="Theorems C15_renumber_ids, C15_rename_names, C15_rename_and_renumber (Properties/C15.v) for all schemas. Tie: each conformant scenario and each single-fault mutant is rendered all-by-id, all-by-alias, mixed per occurrence, and consistently renumbered/renamed; the verdicts must agree with each other and with the model. The string layer the renderings go through (utils.is_global_ref / parse_* / reduce_ref, SchemaValidator._resolve_global_ref, _normalize_ref, _ref_has_path) has a kernel model Model/Resolve.v; 21 theorems in Properties/C15_resolve.v: both spellings of an entity resolve to it under any qualifier (C15r_spellings_agree), also when another entity's name is the decimal spelling of its id (C15r_numeric_alias_not_confused), normalisation is idempotent and keeps the denotation, normal forms of path-free references coincide exactly for the same entity (C15r_unique_reference_fields, which the uniqueness of reference-valued fields relies on), references into schemas that are not loaded never resolve, the exact result of normalisation incl. the refuted claim that a path is preserved; tied to the real functions by corr/resolve.py (13 outputs compared per case on generated environments and reference strings).",
    note="Trusted: coqc kernel + vm_compute (case files); scenario generator/renderer/mutators (harness/scenario.py, mutators.py); Model/Rules.v is tied to the Python by differential testing bounded by the generator, not by proof about the Python; T1 default-value table. Known finding (C10/C15): checkpoint composite duplicates under different spelling.",
    design="6/C15"),
  "C16": dict(
